@@ -140,3 +140,314 @@ theorem optimised_serialises_same_source (E : RegexEngine) (sw : Switches) (r : 
   by_cases h : r.optimised <;> simp [h]
 
 end Tau.C14
+
+namespace Tau.C14
+open Tau
+
+/-- Two loader states the rest of the loader cannot tell apart. -/
+def StEq (a b : LoadSt) : Prop := (∀ i, lookupId a.ids i = lookupId b.ids i) ∧ a.cond = b.cond
+
+theorem StEq.refl (a : LoadSt) : StEq a a := ⟨fun _ => rfl, rfl⟩
+theorem StEq.symm {a b : LoadSt} (h : StEq a b) : StEq b a := ⟨fun i => (h.1 i).symm, h.2.symm⟩
+theorem StEq.trans {a b c : LoadSt} (h : StEq a b) (h' : StEq b c) : StEq a c :=
+  ⟨fun i => (h.1 i).trans (h'.1 i), h.2.trans h'.2⟩
+
+/-- Both fail, or both succeed with indistinguishable states. -/
+def Rel (a b : Except Err LoadSt) : Prop :=
+  match a, b with
+  | .ok s, .ok s' => StEq s s'
+  | .error _, .error _ => True
+  | _, _ => False
+
+theorem Rel.refl (a : Except Err LoadSt) : Rel a a := by
+  cases a <;> simp [Rel, StEq.refl]
+
+theorem Rel.trans {a b c : Except Err LoadSt} (h : Rel a b) (h' : Rel b c) : Rel a c := by
+  cases a <;> cases b <;> cases c <;> simp_all [Rel]
+  exact StEq.trans h h'
+
+theorem Rel.symm {a b : Except Err LoadSt} (h : Rel a b) : Rel b a := by
+  cases a <;> cases b <;> simp_all [Rel]
+  exact StEq.symm h
+
+theorem lookup_append (ids : Ids) (k : Str) (e : Expr) (i : Str) :
+    lookupId (ids ++ [(k, e)]) i =
+      match lookupId ids i with
+      | some b => some b
+      | none => if k == i then some e else none := by
+  induction ids with
+  | nil => simp [lookupId]
+  | cons x xs ih =>
+    obtain ⟨k', e'⟩ := x
+    simp only [List.cons_append, lookupId]
+    split
+    · rfl
+    · exact ih
+
+/-- One iteration of the visitor loop. -/
+def loadStep (E : RegexEngine) (ic : Bool) (x : Str × Yaml) (st : LoadSt) : Except Err LoadSt :=
+  if x.1 == condKey then
+    if st.cond.isSome then .error (.rule "duplicate") else
+    match scalarYamlText x.2 with
+    | some s => .ok { st with cond := some s }
+    | none => .error (.rule "condition-type")
+  else
+    if (lookupId st.ids x.1).isSome then .error (.rule "duplicate") else
+    match parseIdentifier E ic x.2 with
+    | .error _ => .error (.rule "identifier")
+    | .ok e => .ok { st with ids := st.ids ++ [(x.1, e)], idsRaw := st.idsRaw ++ [(x.1, x.2)] }
+
+theorem loadEntries_cons' (E : RegexEngine) (ic : Bool) (x : Str × Yaml) (l : List (Str × Yaml)) (st : LoadSt) :
+    loadEntries E ic (x :: l) st =
+      match loadStep E ic x st with
+      | .error e => .error e
+      | .ok st1 => loadEntries E ic l st1 := by
+  obtain ⟨k, v⟩ := x
+  simp only [loadEntries, loadStep]
+  by_cases hk : (k == condKey) = true
+  · simp only [hk, if_true]
+    by_cases hc : st.cond.isSome = true
+    · simp [hc]
+    · simp only [hc, Bool.false_eq_true, if_false]
+      cases scalarYamlText v <;> rfl
+  · simp only [hk, Bool.false_eq_true, if_false]
+    by_cases hl : (lookupId st.ids k).isSome = true
+    · simp [hl]
+    · simp only [hl, Bool.false_eq_true, if_false]
+      cases parseIdentifier E ic v <;> rfl
+
+theorem loadStep_congr (E : RegexEngine) (ic : Bool) (x : Str × Yaml) {st st' : LoadSt} (h : StEq st st') :
+    Rel (loadStep E ic x st) (loadStep E ic x st') := by
+  unfold loadStep
+  rw [h.2, h.1 x.1]
+  split
+  · split
+    · trivial
+    · split
+      · exact ⟨h.1, rfl⟩
+      · trivial
+  · split
+    · trivial
+    · split
+      · trivial
+      · refine ⟨fun i => ?_, rfl⟩
+        simp only [lookup_append, h.1 i]
+
+theorem loadEntries_congr (E : RegexEngine) (ic : Bool) (l : List (Str × Yaml)) :
+    ∀ {st st' : LoadSt}, StEq st st' → Rel (loadEntries E ic l st) (loadEntries E ic l st') := by
+  induction l with
+  | nil => intro st st' h; simpa [loadEntries, Rel] using h
+  | cons x xs ih =>
+    intro st st' h
+    rw [loadEntries_cons', loadEntries_cons']
+    have := loadStep_congr E ic x h
+    cases h1 : loadStep E ic x st <;> cases h2 : loadStep E ic x st' <;> simp_all [Rel]
+
+
+def step2 (E : RegexEngine) (ic : Bool) (a b : Str × Yaml) (st : LoadSt) : Except Err LoadSt :=
+  match loadStep E ic a st with
+  | .error e => .error e
+  | .ok s => loadStep E ic b s
+
+theorem isSome_lookup_append (ids : Ids) (k : Str) (e : Expr) (i : Str) :
+    (lookupId (ids ++ [(k, e)]) i).isSome = ((lookupId ids i).isSome || (k == i)) := by
+  rw [lookup_append]
+  cases lookupId ids i <;> simp
+  split <;> simp_all
+
+/-- Two adjacent entries can be swapped. -/
+theorem step2_swap (E : RegexEngine) (ic : Bool) (x y : Str × Yaml) (st : LoadSt) :
+    Rel (step2 E ic x y st) (step2 E ic y x st) := by
+  obtain ⟨kx, vx⟩ := x
+  obtain ⟨ky, vy⟩ := y
+  unfold step2 loadStep
+  simp only
+  by_cases hx : (kx == condKey) = true <;> by_cases hy : (ky == condKey) = true <;>
+    simp only [hx, hy, if_true, if_false, Bool.false_eq_true]
+  · -- both are the condition
+    by_cases hc : st.cond.isSome = true
+    · simp [hc, Rel]
+    · simp only [hc, Bool.false_eq_true, if_false]
+      cases scalarYamlText vx <;> cases scalarYamlText vy <;> simp [Rel]
+  · -- x condition, y identifier
+    by_cases hc : st.cond.isSome = true
+    · simp only [hc, if_true]
+      by_cases hl : (lookupId st.ids ky).isSome = true
+      · simp [hl, Rel]
+      · simp only [hl, Bool.false_eq_true, if_false]
+        cases parseIdentifier E ic vy <;> simp [Rel, hc]
+    · simp only [hc, Bool.false_eq_true, if_false]
+      cases hs : scalarYamlText vx with
+      | none =>
+        simp only []
+        by_cases hl : (lookupId st.ids ky).isSome = true
+        · simp [hl, Rel]
+        · simp only [hl, Bool.false_eq_true, if_false]
+          cases parseIdentifier E ic vy <;> simp [Rel, hc, hs]
+      | some s =>
+        simp only []
+        by_cases hl : (lookupId st.ids ky).isSome = true
+        · simp [hl, Rel]
+        · simp only [hl, Bool.false_eq_true, if_false]
+          cases parseIdentifier E ic vy <;> simp [Rel, hc, hs, StEq]
+  · -- x identifier, y condition
+    by_cases hc : st.cond.isSome = true
+    · simp only [hc, if_true]
+      by_cases hl : (lookupId st.ids kx).isSome = true
+      · simp [hl, Rel]
+      · simp only [hl, Bool.false_eq_true, if_false]
+        cases parseIdentifier E ic vx <;> simp [Rel, hc]
+    · simp only [hc, Bool.false_eq_true, if_false]
+      cases hs : scalarYamlText vy with
+      | none =>
+        simp only []
+        by_cases hl : (lookupId st.ids kx).isSome = true
+        · simp [hl, Rel]
+        · simp only [hl, Bool.false_eq_true, if_false]
+          cases parseIdentifier E ic vx <;> simp [Rel, hc, hs]
+      | some s =>
+        simp only []
+        by_cases hl : (lookupId st.ids kx).isSome = true
+        · simp [hl, Rel]
+        · simp only [hl, Bool.false_eq_true, if_false]
+          cases parseIdentifier E ic vx <;> simp [Rel, hc, hs, StEq]
+  · -- both identifiers
+    by_cases hlx : (lookupId st.ids kx).isSome = true <;> by_cases hly : (lookupId st.ids ky).isSome = true <;>
+      simp only [hlx, hly, if_true, if_false, Bool.false_eq_true]
+    · simp [Rel]
+    · cases parseIdentifier E ic vy <;> simp [Rel, isSome_lookup_append, hlx]
+    · cases parseIdentifier E ic vx <;> simp [Rel, isSome_lookup_append, hly]
+    · cases hpx : parseIdentifier E ic vx <;> cases hpy : parseIdentifier E ic vy <;>
+        simp only [isSome_lookup_append, hlx, hly, Bool.false_or]
+      · simp [Rel]
+      · by_cases hk : (ky == kx) = true <;> simp [Rel, hk, hpx]
+      · by_cases hk : (kx == ky) = true <;> simp [Rel, hk, hpy]
+      · by_cases hk : (kx == ky) = true
+        · have e : kx = ky := by simpa using hk
+          subst e
+          simp [Rel]
+        · have hne : kx ≠ ky := by simpa using hk
+          have hk' : (ky == kx) = false := beq_eq_false_iff_ne.mpr (Ne.symm hne)
+          simp only [hk, hk', Bool.false_eq_true, if_false, hpx, hpy, Rel]
+          refine ⟨fun i => ?_, rfl⟩
+          simp only [lookup_append]
+          cases lookupId st.ids i with
+          | some b => rfl
+          | none =>
+            simp only []
+            by_cases h1 : (kx == i) = true <;> by_cases h2 : (ky == i) = true <;> simp [h1, h2]
+            have e1 : kx = i := by simpa using h1
+            have e2 : ky = i := by simpa using h2
+            exact absurd (e1.trans e2.symm) hne
+
+
+theorem loadEntries_two (E : RegexEngine) (ic : Bool) (x y : Str × Yaml) (l : List (Str × Yaml)) (st : LoadSt) :
+    loadEntries E ic (x :: y :: l) st =
+      match step2 E ic x y st with
+      | .error e => .error e
+      | .ok s => loadEntries E ic l s := by
+  rw [loadEntries_cons']
+  unfold step2
+  cases loadStep E ic x st with
+  | error e => rfl
+  | ok s => simp only []; rw [loadEntries_cons']
+
+/-- **The order of the entries of a detection block is irrelevant**: loading a permutation fails
+    exactly when the original fails and otherwise ends in a state no later step can tell apart
+    (same identifier lookup, same condition). -/
+theorem loadEntries_perm (E : RegexEngine) (ic : Bool) {l l' : List (Str × Yaml)} (hp : l.Perm l') :
+    ∀ {st st' : LoadSt}, StEq st st' → Rel (loadEntries E ic l st) (loadEntries E ic l' st') := by
+  induction hp with
+  | nil => intro st st' h; simpa [loadEntries, Rel] using h
+  | cons x _ ih =>
+    intro st st' h
+    rw [loadEntries_cons', loadEntries_cons']
+    have := loadStep_congr E ic x h
+    cases h1 : loadStep E ic x st <;> cases h2 : loadStep E ic x st' <;> simp_all [Rel]
+  | swap x y l =>
+    intro st st' h
+    refine Rel.trans (loadEntries_congr E ic _ h) ?_
+    rw [loadEntries_two, loadEntries_two]
+    have := step2_swap E ic y x st'
+    cases h1 : step2 E ic y x st' <;> cases h2 : step2 E ic x y st' <;> simp_all [Rel]
+    exact loadEntries_congr E ic l this
+  | trans _ _ ih1 ih2 =>
+    intro st st' h
+    exact Rel.trans (ih1 h) (ih2 (StEq.refl st'))
+
+theorem identsPresent_congr (ids ids' : Ids) (h : ∀ i, lookupId ids i = lookupId ids' i) (ts : List Token) :
+    identsPresent ids ts = identsPresent ids' ts := by
+  unfold identsPresent
+  simp only [h]
+
+theorem topK_congr (E : RegexEngine) (ids ids' : Ids) (h : ∀ i, lookupId ids i = lookupId ids' i) :
+    topK E ids = topK E ids' := by
+  unfold topK
+  simp only [h]
+
+/-- **Load does not depend on the order in which the detection entries arrive** (which is what
+    `Serialize` cannot promise: the identifiers live in a `HashMap`). If a detection block loads,
+    every permutation of its entries loads, to the same condition tree and to identifiers with the
+    same lookup — hence to the same three-valued result on every document. -/
+theorem load_order_irrelevant (E : RegexEngine) (ic : Bool) (entries entries' : List (Str × Yaml))
+    (hp : entries.Perm entries') (d : Detection) (h : loadDetection E ic entries = .ok d) :
+    ∃ d', loadDetection E ic entries' = .ok d' ∧ d'.expr = d.expr ∧ d'.condRaw = d.condRaw ∧
+      (∀ i, lookupId d'.ids i = lookupId d.ids i) ∧
+      (∀ doc, solveTop E d'.ids doc d'.expr = solveTop E d.ids doc d.expr) := by
+  have hrel := loadEntries_perm E ic hp (StEq.refl ({} : LoadSt))
+  unfold loadDetection at h ⊢
+  cases h1 : loadEntries E ic entries {} with
+  | error e => rw [h1] at h; cases h
+  | ok st =>
+    cases h2 : loadEntries E ic entries' {} with
+    | error e => rw [h1, h2] at hrel; exact hrel.elim
+    | ok st' =>
+      rw [h1, h2] at hrel
+      obtain ⟨hl, hc⟩ := hrel
+      rw [h1] at h
+      simp only at h ⊢
+      rw [← hc]
+      cases hcond : st.cond with
+      | none => rw [hcond] at h; cases h
+      | some raw =>
+        rw [hcond] at h
+        simp only at h ⊢
+        cases htok : tokenise raw with
+        | error e => rw [htok] at h; cases h
+        | ok tokens =>
+          rw [htok] at h
+          simp only at h ⊢
+          rw [← identsPresent_congr st.ids st'.ids hl tokens]
+          split at h
+          · cases h
+          · rename_i hpres
+            simp only [hpres, Bool.false_eq_true, if_false]
+            cases hparse : parse tokens with
+            | error e => rw [hparse] at h; cases h
+            | ok e =>
+              rw [hparse] at h
+              simp only at h ⊢
+              split at h
+              · cases h
+              · rename_i hsolv
+                cases h
+                simp only [hsolv, Bool.false_eq_true, if_false]
+                refine ⟨_, rfl, rfl, rfl, fun i => (hl i).symm, fun doc => ?_⟩
+                simp only [solveTop]
+                rw [topK_congr E st'.ids st.ids (fun i => (hl i).symm)]
+
+
+/-- **Round trip in any emission order.** Whatever order the serialiser emits the condition and
+    the identifiers in, the emitted detection block loads again, to the same condition tree and the
+    same identifier bodies, hence with the same three-valued result on every document. -/
+theorem load_serialise_any_order (E : RegexEngine) (ic : Bool) (entries : List (Str × Yaml)) (d : Detection)
+    (h : loadDetection E ic entries = .ok d) (emitted : List (Str × Yaml))
+    (hp : ((condKey, Yaml.str d.condRaw) :: d.idsRaw).Perm emitted) :
+    ∃ d', loadDetection E ic emitted = .ok d' ∧ d'.expr = d.expr ∧
+      (∀ i, lookupId d'.ids i = lookupId d.ids i) ∧
+      (∀ doc, solveTop E d'.ids doc d'.expr = solveTop E d.ids doc d.expr) := by
+  obtain ⟨d', h1, h2, _, h4, h5⟩ :=
+    load_order_irrelevant E ic _ emitted hp d (load_serialise E ic entries d h)
+  exact ⟨d', h1, h2, h4, h5⟩
+
+end Tau.C14
